@@ -9,7 +9,7 @@ import sys
 
 VERIF = "/verif"
 WT = "/tmp/seedrepo"
-EXTRA = {"C13": ["C25"], "C35": ["C36"], "C02": ["C38"], "C21": ["C22"]}
+EXTRA = {"C13": ["C25"], "C35": ["C36"], "C02": ["C38"], "C21": ["C22"], "C14": ["C16"], "C20": ["C19"], "C25": ["C19"], "C11": ["C22"]}
 
 
 def sh(cmd, **kw):
